@@ -14,7 +14,7 @@ import io
 import sys
 from typing import Any, Dict, Iterable, List, Optional, Sequence, Tuple
 
-REPO = '/repo'
+REPO = os.environ.get('VERIF_REPO') or '/repo'
 
 
 def ensure_repo() -> None:
